@@ -226,4 +226,120 @@ Section DRF.
         destruct (O1 j u a2 f2 Ej Hut) as [H _]. lia.
   Qed.
 
+
+  (* ------------------------------------------------------------------ *)
+  (* atomicity of a group of accesses made inside ONE critical-section instance *)
+
+  (* event i lies in the section that thread t opened at index k (lock l, mode m) and has not closed up to i *)
+  Definition in_section (tr : trace) (k : nat) (t : thread) (l : lockinst) (m : mode) (i : nat) : Prop :=
+    k < i /\ ev tr k = Some (EAcq t l m) /\
+    forall r, k < r -> r <= i -> ev tr r <> Some (ERel t l m).
+
+  Lemma in_section_earlier : forall tr k t l m i j, in_section tr k t l m j -> k < i -> i <= j -> in_section tr k t l m i.
+  Proof.
+    intros tr k t l m i j [H1 [H2 H3]] Hk Hij. repeat split; auto. intros r R1 R2. apply H3; lia.
+  Qed.
+
+  (* while the section is open, another thread can hold the same lock only if both are readers *)
+  Lemma section_exclusive : forall tr k t l m1 j w u m2,
+      consistent tr -> in_section tr k t l m1 j -> k < w -> w <= j -> u <> t ->
+      held_at tr w u l m2 -> m1 = MR /\ m2 = MR.
+  Proof.
+    intros tr k t l m1 j w u m2 Hc [Hkj [Ek Nk]] Hkw Hwj Hut [k' [Hk' [Ek' Nk']]].
+    assert (Htu : t <> u) by congruence.
+    assert (k < k' \/ k = k' \/ k' < k) as [H | [H | H]] by lia.
+    - assert (Hh : held_at tr k' t l m1).
+      { exists k. repeat split; auto. intros r R1 R2. apply Nk; lia. }
+      exact (Hc k' u l m2 Ek' t m1 Htu Hh).
+    - subst k'. rewrite Ek in Ek'. inversion Ek'. congruence.
+    - assert (Hh : held_at tr k u l m2).
+      { exists k'. repeat split; auto. intros r R1 R2. apply Nk'; lia. }
+      destruct (Hc k t l m1 Ek u m2 Hut Hh) as [A B]. auto.
+  Qed.
+
+  (* Group atomicity: between two accesses i <= j that a thread makes inside one section instance of l, any
+     access w by another thread that respects the discipline of l (writes hold l in W mode, reads in R or W)
+     is a read, and then the group's own section is a read section.  Hence a group in a write section is
+     isolated, and a group of reads in a read section sees one snapshot of everything guarded by l. *)
+  Theorem group_atomic : forall tr k t l m i j w u x wr a f,
+      consistent tr ->
+      in_section tr k t l m i -> in_section tr k t l m j -> i <= w -> w <= j ->
+      ev tr w = Some (EAcc u x wr a f) -> u <> t ->
+      holds_for tr w u l wr ->
+      m = MR /\ wr = false.
+  Proof.
+    intros tr k t l m i j w u x wr a f Hc Si Sj Hiw Hwj Ew Hut Hh.
+    assert (Hkw : k < w) by (destruct Si; lia).
+    apply holds_for_mode in Hh. destruct Hh as [m2 [H2 M2]].
+    destruct (section_exclusive tr k t l m j w u m2 Hc Sj Hkw Hwj Hut H2) as [A B].
+    split; auto. destruct wr; auto. specialize (M2 eq_refl). congruence.
+  Qed.
+
 End DRF.
+
+(* ---------------------------------------------------------------------- *)
+(* Counters updated with atomic read-modify-write operations: no lost update *)
+From Coq Require Import ZArith Permutation.
+
+Inductive cop := CAdd (d : Z) | CLoad | CStore (v : Z).
+
+(* value of the counter after a sequence of atomic operations (any interleaving of the threads' operations
+   is such a sequence) *)
+Fixpoint crun (ops : list cop) (v : Z) : Z :=
+  match ops with
+  | [] => v
+  | CAdd d :: r => crun r (v + d)
+  | CLoad :: r => crun r v
+  | CStore c :: r => crun r c
+  end.
+
+Fixpoint adds (ops : list cop) : Z :=
+  match ops with
+  | [] => 0
+  | CAdd d :: r => d + adds r
+  | _ :: r => adds r
+  end%Z.
+
+Definition add_or_load (o : cop) : bool := match o with CStore _ => false | _ => true end.
+
+Theorem counter_no_lost_update : forall ops v,
+    forallb add_or_load ops = true -> crun ops v = (v + adds ops)%Z.
+Proof.
+  induction ops as [|o r IH]; intros v H; simpl in *.
+  - lia.
+  - apply andb_true_iff in H. destruct H as [Ho Hr]. destruct o; simpl in *; try discriminate.
+    + rewrite IH by auto. lia.
+    + apply IH; auto.
+Qed.
+
+Lemma adds_perm : forall a b, Permutation a b -> adds a = adds b.
+Proof.
+  induction 1; simpl; auto.
+  - destruct x; simpl; lia.
+  - destruct x, y; simpl; lia.
+  - congruence.
+Qed.
+
+Lemma add_or_load_perm : forall a b, Permutation a b -> forallb add_or_load a = true -> forallb add_or_load b = true.
+Proof.
+  intros a b P H. rewrite forallb_forall in *. intros x Hx. apply H. eapply Permutation_in; [apply Permutation_sym; exact P | exact Hx].
+Qed.
+
+(* the final value does not depend on the interleaving *)
+Theorem counter_interleaving_independent : forall ops ops' v,
+    Permutation ops ops' -> forallb add_or_load ops = true -> crun ops v = crun ops' v.
+Proof.
+  intros ops ops' v P H.
+  rewrite (counter_no_lost_update ops v H).
+  rewrite (counter_no_lost_update ops' v (add_or_load_perm _ _ P H)).
+  rewrite (adds_perm _ _ P). reflexivity.
+Qed.
+
+(* with resets to a constant: the value counts the additions since the last reset *)
+Theorem counter_since_reset : forall pre post c v,
+    forallb add_or_load post = true -> crun (pre ++ CStore c :: post) v = (c + adds post)%Z.
+Proof.
+  induction pre as [|o r IH]; intros post c v H; simpl.
+  - apply counter_no_lost_update; auto.
+  - destruct o; apply IH; auto.
+Qed.
